@@ -143,6 +143,17 @@ def check_shared(spec, pa, pb, mode, via):
         out.append(FW.violation(PROP, "shared", "%s:%s" % (rel, mode),
                                 "filled-silently-on-call-%s" % ("1" if callno == 1 else "n"), dict(args, call=callno), {}))
         return out
+    # the user repairs the tree (the original, distinct object back at the second position): no node is shared any
+    # more, so the tree must now be accepted - a rejected walk may not leave anything behind
+    try:
+        install(b[0], b[1], b[2])
+        attempt(h, mode)
+        attempt(h, mode)
+    except ContainerException as e:
+        out.append(FW.violation(PROP, "shared", "repaired-after-rejection:%s" % mode, "rejected-without-shared-node",
+                                args, {"exception": str(e)[:200]}))
+    except Exception as e:
+        out.append(core.v_exc(PROP, "shared", "fill of the repaired tree raised", e, args))
     return out
 
 
